@@ -22,18 +22,22 @@ var c18Emacs = []c18Key{
 	{"C-a", "\x01"}, {"C-b", "\x02"}, {"C-e", "\x05"}, {"C-k", "\x0b"}, {"C-d", "\x04"}, {"C-t", "\x14"}, {"C-y", "\x19"}, {"C-w", "\x17"},
 	{"M-f", "\x1bf"}, {"M-b", "\x1bb"}, {"M-d", "\x1bd"}, {"M-u", "\x1bu"},
 	{"left", "\x1b[D"}, {"right", "\x1b[C"}, {"C-v C-a", "\x16\x01"}, {"M-2", "\x1b2"},
+	// an upper-case meta key (runs the binding of the lower-case one by feeding it back), and a command
+	// that reads its own keys until ESC (overwrite-mode); NUL separates the reads
+	{"M-F", "\x1bF"}, {"C-x C-o X ESC", "\x18\x0f\x00X\x00\x1b"},
 }
 
 var c18Vi = []c18Key{
 	{"h", "h"}, {"l", "l"}, {"x", "x"}, {"w", "w"}, {"b", "b"}, {"dw", "dw"}, {"i z ESC", "iz\x1b"}, {"A y ESC", "Ay\x1b"},
 	{"~", "~"}, {"0", "0"}, {"$", "$"}, {"r q", "rq"}, {"p", "p"}, {"C-a", "\x01"}, {"f o", "fo"}, {"2", "2"}, {"cw X ESC", "cwX\x1b"}, {"D", "D"}, {"u", "u"},
 	{"i backslash ESC", "i\\\x1b"}, {"i dquote ESC", "i\"\x1b"}, {"r backslash", "r\\"},
+	{"R X ESC", "RX\x1b"}, {"d i dquote", "di\""}, {"f dquote", "f\""},
 }
 
 // second bytes of the ESC-prefixed sequences bound in vi-insert (filled by runC18)
 var c18ViMetaSecond = map[byte]bool{}
 
-var c18Starts = []string{"", "foo bar", "a\"b"}
+var c18Starts = []string{"", "foo bar", "a\"b", "x \"ab\" y \"cd\" z"}
 
 type c18Case struct {
 	mode  string
@@ -61,6 +65,9 @@ func c18Chunks(mode string, k c18Key) []string {
 	}
 	if k.name == "C-v C-a" {
 		return []string{"\x16", "\x01"}
+	}
+	if strings.Contains(k.bytes, "\x00") {
+		return strings.Split(k.bytes, "\x00")
 	}
 	return []string{k.bytes}
 }
@@ -118,6 +125,15 @@ func c18Verdict(cs c18Case, t1, t2 *harness.Trace) (fp, what string, nontrivial 
 				cls = "esc-prefixed"
 			case len(k.bytes) > 0 && k.bytes[0] < 0x20 && cls == "printable":
 				cls = "control"
+			}
+		}
+		if cs.mode != "vi" {
+			// known class: an upper-case meta key runs the lower-case one by feeding its keys back to the
+			// dispatcher; while a macro is being recorded both the typed and the fed keys are recorded
+			for _, k := range cs.keys {
+				if len(k.bytes) == 2 && k.bytes[0] == 0x1b && k.bytes[1] >= 'A' && k.bytes[1] <= 'Z' {
+					cls = "upper-case-meta-key-recorded-with-the-keys-it-feeds-back"
+				}
 			}
 		}
 		if cs.mode == "vi" {
